@@ -12,7 +12,7 @@ from mc import corpus, faultio, pool
 LEVEL = "fault_enumeration"
 
 
-def consume_flat(api: str, src) -> tuple[list, str | None]:
+def consume_flat(api: str, src, **kw) -> tuple[list, str | None]:
     from mc import terms as T  # noqa: PLC0415
 
     if api == "generic":
@@ -25,7 +25,7 @@ def consume_flat(api: str, src) -> tuple[list, str | None]:
         conv = T.ev_from_rdflib
     out: list = []
     try:
-        for item in parse_jelly_flat(src):
+        for item in parse_jelly_flat(src, **kw):
             out.append(conv(item))
     except Exception as e:  # noqa: BLE001
         return out, type(e).__name__
@@ -86,7 +86,7 @@ def judge(entry, k: int, got: list, mode: str, api: str) -> str | None:
             return (f"after Graph.parse the graph lacks {len(want - gs)} statements of frames that "
                     f"were delivered completely before offset {k}")
         return None
-    if mode == "flat":
+    if mode in ("flat", "flat_strict"):
         if got != full[: len(got)]:
             return f"yielded {got} which is not a prefix of the original {full}"
         if len(got) < len(complete):
@@ -140,6 +140,8 @@ def run_case(case: dict) -> str | None:
            "raw-reset-7": lambda: faultio.ResetRaw(data, 7)}[case["source"]]()
     if case["mode"] == "graph_parse":
         got, exc = consume_to_graph(case["api"], src, entry["cls"] != "triple")
+    elif case["mode"] == "flat_strict":
+        got, exc = consume_flat(case["api"], src, logical_type_strict=True)
     else:
         fn = consume_flat if case["mode"] == "flat" else consume_grouped
         got, exc = fn(case["api"], src)
@@ -150,9 +152,18 @@ def run_case(case: dict) -> str | None:
 
 def shard(job) -> dict:
     size, idx = job
-    entry = corpus.base_streams(size)[idx]
+    entry = dict(corpus.base_streams(size)[idx])
     acc = pool.Acc()
     n = len(entry["data"])
+    # (strict parsing accepts the stream at all only if its header states a flat logical type)
+    from mc import jwire  # noqa: PLC0415
+
+    try:
+        first = jwire.read_delimited(entry["data"])
+        opt = next(r for f in first for r in f["rows"] if r["kind"] == "options")
+        entry["flat_logical"] = opt["v"].get("logical_type") in (1, 2)
+    except Exception:  # noqa: BLE001
+        entry["flat_logical"] = False
     ends = {hi for _, hi in entry["offsets"]}
     if entry.get("big"):
         # big streams: every offset within 3 bytes of a frame boundary, plus every 257th offset
@@ -166,7 +177,10 @@ def shard(job) -> dict:
             for api in ("generic", "rdflib"):
                 if api == "rdflib" and not entry["rdf11"]:
                     continue
-                for mode in ("flat", "grouped") + (("graph_parse",) if api == "rdflib" else ()):
+                strict = ("flat_strict",) if entry.get("flat_logical") and source in (
+                    "bytesio", "file") else ()
+                for mode in ("flat", "grouped") + strict + (
+                        ("graph_parse",) if api == "rdflib" else ()):
                     case = {"corpus": size, "stream": entry["name"], "cut": k, "source": source,
                             "api": api, "mode": mode}
                     acc.evals += 1
